@@ -1302,6 +1302,9 @@ fn step(line: &str) -> String {
         Err(_) => {
             if rand::verif_exhausted() {
                 "rng-exhausted".to_string()
+            } else if std::env::var_os("VERIF_PANIC_MSG").is_some() {
+                // C19: the two builds must also agree on *which* documented panic fires
+                format!("panic: {}", LAST_PANIC.with(|m| m.borrow().clone()))
             } else {
                 "panic".to_string()
             }
@@ -1309,8 +1312,23 @@ fn step(line: &str) -> String {
     }
 }
 
+thread_local! {
+    static LAST_PANIC: std::cell::RefCell<String> = std::cell::RefCell::new(String::new());
+}
+
 fn main() {
-    std::panic::set_hook(Box::new(|_| {}));
+    std::panic::set_hook(Box::new(|info| {
+        let msg = if let Some(s) = info.payload().downcast_ref::<&str>() {
+            s.to_string()
+        } else if let Some(s) = info.payload().downcast_ref::<String>() {
+            s.clone()
+        } else {
+            "?".to_string()
+        };
+        // keep only the message text (no file/line, which differ between the two dependency builds)
+        let msg: String = msg.chars().filter(|c| !c.is_control()).take(160).collect();
+        LAST_PANIC.with(|m| *m.borrow_mut() = msg);
+    }));
     let stdin = io::stdin();
     let stdout = io::stdout();
     let mut out = io::BufWriter::new(stdout.lock());
